@@ -313,6 +313,43 @@ pub fn run(p: &Params) -> Run {
             run.case_with_desc(case, result.wire(), tag, desc);
         }
     }
+    // ----- which side of ON is the joiner: `transform_join` through the real parser (`onres`) -----
+    let names = ["t", "u", "x"];
+    let colnames = ["k", "v", "a"];
+    for _ in 0..p.n(300, 3000) {
+        let from = *rng.pick(&names);
+        let joiner = *rng.pick(&names);
+        let (lt, rt) = if rng.chance(2, 3) { if rng.chance(1, 2) { (from, joiner) } else { (joiner, from) } } else { (*rng.pick(&names), *rng.pick(&names)) };
+        let (lc, rc) = (*rng.pick(&colnames), *rng.pick(&colnames));
+        let sql = format!("SELECT * FROM {} {} JOIN {}::'f' ON {}.{} = {}.{}", from, if rng.chance(1, 2) { "INNER" } else { "OUTER" }, joiner, lt, lc, rt, rc);
+        let answer = match sqlgrep::parsing::parse(&sql) {
+            Ok(stmt) => match stmt.join_clause() {
+                Some(j) => format!("ok joiner={} joined={} table={}", j.joiner_column, j.joined_column, j.joined_table),
+                None => "nojoin".to_owned(),
+            },
+            Err(sqlgrep::parsing::CommonParserError::ConvertParserTreeError(e)) => match e.error {
+                sqlgrep::parsing::verif_hooks::ConvertParserTreeErrorType::InvalidOnJoin => "err:InvalidOnJoin".to_owned(),
+                sqlgrep::parsing::verif_hooks::ConvertParserTreeErrorType::InvalidJoinerTable(_) => "err:InvalidJoinerTable".to_owned(),
+                _ => "err:other".to_owned(),
+            },
+            Err(_) => "err:parse".to_owned(),
+        };
+        // the relation on the implementation: the written order of the two sides does not matter
+        run.oracle_checks += 1;
+        if joiner != from {
+            let sql2 = format!("SELECT * FROM {} INNER JOIN {}::'f' ON {}.{} = {}.{}", from, joiner, rt, rc, lt, lc);
+            let a2 = match sqlgrep::parsing::parse(&sql2) {
+                Ok(stmt) => stmt.join_clause().map(|j| format!("ok joiner={} joined={} table={}", j.joiner_column, j.joined_column, j.joined_table)).unwrap_or_default(),
+                Err(_) => "err".to_owned(),
+            };
+            if answer.starts_with("ok") != a2.starts_with("ok") || (answer.starts_with("ok") && answer != a2) {
+                run.fail(sql.clone(), "join-side-matters", format!("{} gives {} but with the sides swapped {}", sql, answer, a2));
+            }
+        }
+        let hx = crate::util::hexs;
+        let tag = format!("onres|{}|self{}|l{}r{}", answer.split(' ').next().unwrap_or(""), (joiner == from) as u8, (lt == from) as u8, (rt == from) as u8);
+        run.case_with_desc(format!("onres {} {} {} {} {} {}", hx(from), hx(joiner), hx(lt), hx(lc), hx(rt), hx(rc)), answer, tag, sql);
+    }
     let _ = std::fs::remove_file(jpath);
     run.notes.push("tables t(k TEXT, v INT, w INT, r REAL, s TEXT) and u(k TEXT, v INT, y TEXT, r REAL): k, v, r clash; join keys TEXT/INT/REAL/mismatched types, 5-60% NULL fields, 0-13 lines per side over 5 key values, 1-3 input files; ON in both orders; INNER/OUTER; plain projections (aliased), *, WHERE, aggregates, DISTINCT, LIMIT; one case in eight with an unknown join column or a missing joined file".to_owned());
     run.notes.push("oracle: independent nested loop (Rust) for plain projections and *; the Lean nested-loop specification answers every case without LIMIT (three-way comparison); ON-side swap compared on every third case".to_owned());
